@@ -53,11 +53,12 @@ type Ctx struct {
 }
 
 type Scenario struct {
-	Property string
-	Name     string
-	Tiers    string // "" = both, "thorough" = thorough only, "quick" = quick only
-	Shards   int    // thorough-tier subtree shards (0/1 = none)
-	Run      func(c *Ctx) *Result
+	Property    string
+	Name        string
+	Tiers       string // "" = both, "thorough" = thorough only, "quick" = quick only
+	Shards      int    // thorough-tier subtree shards (0/1 = none)
+	QuickShards int    // quick-tier subtree shards (0/1 = none)
+	Run         func(c *Ctx) *Result
 }
 
 var registry []Scenario
@@ -94,6 +95,9 @@ func Main(t tb) {
 			sh := 1
 			if tier == "thorough" && s.Shards > 1 {
 				sh = s.Shards
+			}
+			if tier != "thorough" && s.QuickShards > 1 {
+				sh = s.QuickShards
 			}
 			fmt.Printf("SCENARIO %s %s %d\n", s.Property, s.Name, sh)
 		}
